@@ -67,6 +67,7 @@ type ReplayFile struct {
 	Draws     []choice.Draw `json:"draws"`
 	Trace     []string      `json:"trace"`
 	Shrunk    string        `json:"shrunk"`
+	Known     []string      `json:"known_signatures"` // listed findings in force when the run was recorded
 }
 
 type Found struct {
@@ -155,6 +156,31 @@ func safeRun(run RunFunc, env *Env) (res *Result, panicked string) {
 	return run(env), ""
 }
 
+// PanicOrigin inspects the stack of a recovered panic and tells whether the panicking frame
+// belongs to MetalLB code (a crash of the system under test) or to the harness/simulator.
+// Call it from the deferred function that recovered.
+func PanicOrigin(stack string) (metallb bool, where string) {
+	lines := strings.Split(stack, "\n")
+	seenPanic := false
+	for i := 0; i+1 < len(lines); i++ {
+		l := lines[i]
+		if strings.HasPrefix(l, "panic(") {
+			seenPanic = true
+			continue
+		}
+		if !seenPanic || strings.HasPrefix(l, "\t") {
+			continue
+		}
+		file := strings.TrimSpace(lines[i+1])
+		if strings.HasPrefix(l, "runtime.") || strings.Contains(file, "/src/runtime/") {
+			continue
+		}
+		harness := strings.Contains(file, "verifsim") || strings.Contains(file, "zz_verif") || !strings.Contains(file, "/repo/") && !strings.Contains(l, "go.universe.tf/metallb")
+		return !harness, l + " " + file
+	}
+	return false, ""
+}
+
 // HashStrings hashes an event log.
 func HashStrings(ss []string) uint64 {
 	h := fnv.New64a()
@@ -200,7 +226,11 @@ func Main(engine string, run RunFunc) (exit int) {
 			p[x] = true
 		}
 		ch := choice.NewStrictReplay(rf.Draws)
-		res, _ := safeRun(run, &Env{Ch: ch, Props: p, Tier: rf.Tier, Variant: rf.Variant, Verbose: true, Known: map[string]bool{}})
+		kn := map[string]bool{}
+		for _, x := range rf.Known {
+			kn[x] = true
+		}
+		res, _ := safeRun(run, &Env{Ch: ch, Props: p, Tier: rf.Tier, Variant: rf.Variant, Verbose: true, Known: kn})
 		rep.Runs = 1
 		rep.Diverged = ch.Diverged
 		rep.Replayed = res.Violation
@@ -247,6 +277,11 @@ func Main(engine string, run RunFunc) (exit int) {
 		defer hashFile.Close()
 	}
 	seenClass := map[string]bool{}
+	var knownList []string
+	for k := range known {
+		knownList = append(knownList, k)
+	}
+	sort.Strings(knownList)
 	var propList []string
 	for p := range props {
 		propList = append(propList, p)
@@ -322,7 +357,7 @@ func Main(engine string, run RunFunc) (exit int) {
 			return 2
 		}
 		rf := ReplayFile{Engine: engine, Variant: rep.Variant, Property: v.Property, Props: propList, Tier: tier, Seed: seed,
-			Violation: *r2.Violation, Draws: c2.Trace, Trace: r2.Log, Shrunk: note}
+			Violation: *r2.Violation, Draws: c2.Trace, Trace: r2.Log, Shrunk: note, Known: knownList}
 		path := ""
 		if replayDir != "" {
 			path = filepath.Join(replayDir, fmt.Sprintf("%s-%s-%d.json", v.Property, engine, seed))
